@@ -48,7 +48,7 @@ def params_written(model, kind):
 
 def reader_calls(model, rep):
     rel = model.rel("system")
-    fn = model.own_method("System", "from_file")
+    fn = model.norm_method("System", "from_file")
     if fn is None:
         raise AnalysisError("System.from_file not found")
     # all `name = _get_opt/_get_mand(<src>, "key"[, default])` in program order
@@ -160,8 +160,8 @@ def later_excluded(fn, iff, kind):
 
 def system_block(model, rep):
     rel = model.rel("system")
-    save = model.own_method("System", "save")
-    load = model.own_method("System", "from_file")
+    save = model.norm_method("System", "save")
+    load = model.norm_method("System", "from_file")
     # writer keys under "system"
     wkeys = None
     for x in ast.walk(save):
@@ -233,7 +233,7 @@ def system_block(model, rep):
                 rep.violation("R3", "system.System.save", "%s:%d" % (rel, rec.lineno), "the mux inputs are written as %s, not as the names of its priority-ordered parents" % p, "mux parents")
     rep.instance("R3", "system.System.save component records", "%s:%d" % (rel, save.lineno), ok, "%d record sites" % len(recs))
     # _get_applims: own-or-default pair per applicable key, unmodified
-    ga = model.own_method("System", "_get_applims")
+    ga = model.norm_method("System", "_get_applims")
     IDX = ga.args.args[1].arg
     ok = False
     loops = [x for x in ast.walk(ga) if isinstance(x, ast.For) and isinstance(x.target, ast.Name)]
@@ -247,6 +247,14 @@ def system_block(model, rep):
         st_ = lp.body[0]
         ok = itsrc == "self._g[%s]._get_limits()" % IDX and ast.unparse(st_.targets[0]) == "%s[%s]" % (out, k) and \
             ast.unparse(st_.value).replace(" ", "") == "_get_opt(self._g[%s]._limits,%s,LIMITS_DEFAULT[%s])" % (IDX, k, k)
+    # the same as a dict comprehension: {k: _get_opt(own limits, k, LIMITS_DEFAULT[k]) for k in own _get_limits()}
+    if not ok and len(rets) == 1 and isinstance(rets[0].value, ast.DictComp) and len(rets[0].value.generators) == 1 and not loops:
+        dc = rets[0].value
+        g = dc.generators[0]
+        if isinstance(g.target, ast.Name) and not g.ifs:
+            k = g.target.id
+            ok = ast.unparse(g.iter) == "self._g[%s]._get_limits()" % IDX and is_name(dc.key, k) and \
+                ast.unparse(dc.value).replace(" ", "") == "_get_opt(self._g[%s]._limits,%s,LIMITS_DEFAULT[%s])" % (IDX, k, k)
     if not ok:
         rep.violation("R3", "system.System._get_applims", "%s:%d" % (rel, ga.lineno), "the saved limits are not, per applicable key, the component's own pair (or the default) unmodified", "applims")
     rep.instance("R3", "system.System._get_applims", "%s:%d" % (rel, ga.lineno), ok)
@@ -263,7 +271,7 @@ def system_block(model, rep):
 
 def version_gate(model, rep):
     rel = model.rel("system")
-    load = model.own_method("System", "from_file")
+    load = model.norm_method("System", "from_file")
     ok = False
     gate_line = None
     vers = [x.targets[0].id for x in ast.walk(load) if isinstance(x, ast.Assign) and isinstance(x.targets[0], ast.Name) and isinstance(x.value, ast.Call)
@@ -284,7 +292,7 @@ def version_gate(model, rep):
     if not ok:
         rep.violation("R4", "system.System.from_file", "%s:%d" % (rel, load.lineno), "a file written by a newer version is not refused with ValueError before anything is built (test must be parse(current) < parse(file version))", "version gate")
     rep.instance("R4", "system.System.from_file version gate", "%s:%d" % (rel, gate_line or load.lineno), ok)
-    save = model.own_method("System", "save")
+    save = model.norm_method("System", "save")
     ok = "'version': sysloss.__version__" in ast.unparse(save).replace('"', "'")
     if not ok:
         rep.violation("R4", "system.System.save", "%s:%d" % (rel, save.lineno), "the file is not stamped with the running version", "version stamp")
@@ -312,7 +320,7 @@ def reader_paths(model, rep):
     from ..guards import Ctx, literals
     from ..terms import Unsupported
     rel = model.rel("system")
-    fn = model.own_method("System", "from_file")
+    fn = model.norm_method("System", "from_file")
     # the innermost loop that builds child components
     inner = None
     for lp in ast.walk(fn):
@@ -396,7 +404,7 @@ def writer_partition(model, rep):
     """save(): every component is written under exactly one key - below its source unless it is the mux or below the mux,
     and the mux with everything below it in the mux's own block"""
     rel = model.rel("system")
-    save = model.own_method("System", "save")
+    save = model.norm_method("System", "save")
     where = "%s:%d" % (rel, save.lineno)
     ok = True
     pm = [x for x in ast.walk(save) if isinstance(x, ast.Assign) and isinstance(x.targets[0], ast.Name) and ast.unparse(x.value) == "self._get_pmux()"]
@@ -448,7 +456,7 @@ def root_paths(model, rep):
     from ..guards import Ctx, literals
     from ..terms import Unsupported
     rel = model.rel("system")
-    fn = model.own_method("System", "from_file")
+    fn = model.norm_method("System", "from_file")
     outer = None
     for lp in fn.body:
         if isinstance(lp, ast.For) and any(isinstance(c, ast.Call) and isinstance(c.func, ast.Name) and c.func.id == "PMux" for c in ast.walk(lp)):
